@@ -1065,6 +1065,7 @@ func (t *txattrwalk) handle(cs *connState) message {
 		}
 		newRef := &fidRef{
 			server: cs.server,
+			parent: ref.parent,
 			file:   xattrFile,
 			pendingXattr: pendingXattr{
 				op:   xattrWalk,
@@ -1073,6 +1074,14 @@ func (t *txattrwalk) handle(cs *connState) message {
 				buf:  buf,
 			},
 			pathNode: ref.pathNode,
+		}
+		if !ref.hasParent() {
+			// Like a clone, the new fid is registered under the entry's name
+			// (ref is not deleted, see above) and holds a reference on the
+			// parent: its File is told when the entry or a directory above
+			// it is renamed, and is dropped from the tree with the entry.
+			ref.parent.pathNode.addChild(newRef, ref.parent.pathNode.nameFor(ref))
+			ref.parent.IncRef()
 		}
 		cs.InsertFID(t.newFID, newRef)
 		return nil
